@@ -143,7 +143,31 @@ def stat_update_is_applied_before_return(ctx, tag):
                   "call - oomd.kills after a kill that signalled a process - does not show it" % (q, ", ".join(bad), kn))
 
 
+def service_owns_what_shutdown_needs(ctx):
+    """'Shutting the service down always completes': the destructor wakes the accept thread by connecting to the service's own socket path.
+    That path - like everything else ~Stats reads - is a member the service OWNS (a std::string), not a reference, pointer or view to the
+    caller's string, which may have been a temporary or may have changed by the time the service is shut down."""
+    P = ctx.prog
+    cls = P.classes.get("Oomd::Stats")
+    if not cls:
+        ctx.broken("service-owns-what-shutdown-needs", "anchor", "-", "class Oomd::Stats not found")
+        return
+    dt = ctx.use(ctx.fn1("Oomd::Stats::~Stats"))
+    read = {nd["name"] for nd in dt.nodes if nd.get("k") == "member" and nd.get("qname", "").startswith("Oomd::Stats::")}
+    flds = {x["name"]: x for x in cls.get("fields", [])}
+    ctx.counters["destructor_member_reads"] = len(read)
+    ctx.floor("destructor_member_reads", 3, "members of Stats read by ~Stats")
+    for nm in sorted(read):
+        t = (flds.get(nm) or {}).get("type", "")
+        borrowed = t.rstrip().endswith("&") or t.rstrip().endswith("*") or "string_view" in t or "reference_wrapper" in t or "span<" in t
+        ctx.check(not borrowed, "service-owns-what-shutdown-needs:" + nm, "E-TYPE (declared member type)", "oomd/Stats.h",
+                  "%s is owned by the service (%s)" % (nm, t),
+                  "Stats::%s is declared %s: the service only borrows it, yet ~Stats reads it to wake its accept thread - if the caller's object is a temporary, "
+                  "gone or changed by then, the wake-up connects nowhere, accept() never returns and join() blocks for ever" % (nm, t))
+
+
 def run(ctx):
+    service_owns_what_shutdown_needs(ctx)
     stat_update_is_applied_before_return(ctx, "C19")
     # the accept loop ends only with the server: a failed accept() (EMFILE, ECONNABORTED, ...) is logged and retried - no break / return
     rsk0 = ctx.fn1("Oomd::Stats::runSocket")
